@@ -459,6 +459,9 @@ func (in *Interp) external(act *activation, b *ssa.BasicBlock, site token.Pos, n
 		if z := bigOf(args[0]); z != nil {
 			return kBig(z)
 		}
+		if args[0] != nil && args[0].Sym != "" {
+			return &Val{Sym: args[0].Sym, Deps: args[0].Deps}
+		}
 	case "big.Int.SetUint64", "big.Int.SetInt64", "big.Int.Set":
 		if len(args) > 0 {
 			if z := bigOf(args[len(args)-1]); z != nil {
@@ -488,6 +491,10 @@ func (in *Interp) external(act *activation, b *ssa.BasicBlock, site token.Pos, n
 					return kBig(new(big.Int).Exp(xs[1], xs[2], nil))
 				}
 			}
+		}
+		if short == "big.Int.Exp" && recv == nil && len(xs) >= 3 && xs[1] != nil && args[2] != nil && args[2].Sym != "" && len(args) >= 4 && args[3] != nil && args[3].Sym == "nil" {
+			// constant base, symbolic exponent: keep the shape (used by the limb-packing rules)
+			return &Val{Sym: "exp(" + xs[1].String() + "," + args[2].Sym + ")", Deps: args[2].Deps}
 		}
 	case "math.Pow":
 		if len(args) == 2 && args[0] != nil && args[1] != nil && args[0].K != nil && args[1].K != nil {
